@@ -1168,6 +1168,162 @@ static void identity_suite(vf::Rng& r) {
   }
 }
 
+static bool memcmp_needed_resync(const Canvas& dm, const Image& img) {
+  const void* p = img.get_data();
+  for (size_t i = 0; i < dm.v.size(); i++) if (raw_get(p, i, dm.cw) != dm.v[i]) return true;
+  return false;
+}
+
+// ------------------------------------------------------------------------------------------------
+// format changes, copies and read probes with the model carried across them
+
+static void compare_exact(const char* opname, const string& keytail, const Canvas& dm, const Image& img, const string& where) {
+  if (!format_matches(img, dm)) {
+    if (!saturated(string(opname) + ":format:" + keytail))
+      C->violation(string(opname) + ":format:" + keytail, "canvas size/alpha/width after the call is not what the call asked for",
+          where + fmt(" got %zux%zu/%d%s", img.get_width(), img.get_height(), (int)img.get_channel_width(), img.get_has_alpha() ? "a" : "n"));
+    return;
+  }
+  const void* p = img.get_data();
+  for (size_t i = 0; i < dm.v.size(); i++) {
+    uint64_t got = raw_get(p, i, dm.cw);
+    if (got != dm.v[i]) {
+      string key = string(opname) + ":wrong-value:" + keytail;
+      if (!saturated(key))
+        C->violation(key, "pixel buffer differs from the per-pixel prediction", fmt("pixel (%" PRId64 ",%" PRId64 ") channel %d expected=%" PRIx64 " got=%" PRIx64 " ",
+            (int64_t)(i / dm.nch) % (dm.w ? dm.w : 1), (int64_t)(i / dm.nch) / (dm.w ? dm.w : 1), (int)(i % dm.nch), dm.v[i], got) + where);
+      return;
+    }
+  }
+}
+
+// what: 0 set_channel_width(arg), 1 set_has_alpha(arg), 2 copy ctor + move assign, 3 copy assign via temporary
+static void check_format_op(int what, int arg, Canvas& dm, Image& img, uint64_t cseed, const char* role) {
+  string before = canvas_str(dm);
+  int oldcw = dm.cw;
+  bool olda = dm.alpha;
+  static const char* names[4] = {"set_channel_width", "set_has_alpha", "copy-ctor+move-assign", "copy-assign"};
+  string where = fmt("%s(%d) on %s %s content_seed=%" PRIu64 " seed=%" PRIu64 " shard=%u/%u (after the preceding operations of this sequence)", names[what], arg, role, before.c_str(), cseed, C->seed, C->shard, C->nshards);
+  C->crumb_s(where);
+  C->evaluations++;
+  string threw;
+  try {
+    if (what == 0) img.set_channel_width((uint8_t)arg);
+    else if (what == 1) img.set_has_alpha(arg != 0);
+    else if (what == 2) { Image c(img); img = std::move(c); }
+    else { Image c; c = img; Image d2(2, 1, !dm.alpha, dm.cw == 8 ? 16 : 8); d2 = c; img = d2; }
+  } catch (const std::exception& e) {
+    threw = e.what();
+  }
+  string keytail;
+  if (what == 0) { model_set_width(dm, arg); keytail = fmt("%d->%d", oldcw, arg); }
+  else if (what == 1) { model_set_alpha(dm, arg != 0); keytail = fmt("%s:w%d", olda == (arg != 0) ? "same" : arg ? "add" : "drop", dm.cw); }
+  else keytail = wtag(dm);
+  const char* opname = what <= 1 ? names[what] : "copy";
+  if (!threw.empty()) C->violation(string(opname) + ":threw:" + keytail, "threw: " + threw, where);
+  compare_exact(opname, keytail, dm, img, where);
+  if (!format_matches(img, dm)) snapshot(img, dm);
+  else if (memcmp_needed_resync(dm, img)) snapshot(img, dm);
+  C->cls(string(opname) + ":" + keytail);
+}
+
+// read_pixel on in-canvas pixels must report the buffer content and, without an alpha channel,
+// the channel maximum OF THE CURRENT WIDTH as alpha
+static void probe_reads(const Canvas& dm, const Image& img, vf::Rng& r, int n, uint64_t cseed, const char* role) {
+  if (!dm.w || !dm.h) return;
+  for (int k = 0; k < n; k++) {
+    int64_t x = (int64_t)r.below((uint64_t)dm.w), y = (int64_t)r.below((uint64_t)dm.h);
+    uint64_t m[4], got[4] = {1, 2, 3, 4};
+    dm.get(x, y, m);
+    C->evaluations++;
+    C->crumb_n("probe_read", (uint64_t)x, (uint64_t)y, (uint64_t)dm.w, (uint64_t)dm.h, (uint64_t)dm.cw, cseed);
+    uint32_t g32v = 0;
+    try {
+      img.read_pixel(x, y, &got[0], &got[1], &got[2], &got[3]);
+      g32v = img.read_pixel(x, y);
+    } catch (const std::exception& e) {
+      C->violation("read_pixel:inside-threw:" + wtag(dm), string("read_pixel inside the canvas threw ") + e.what(), canvas_str(dm));
+      return;
+    }
+    if (memcmp(got, m, sizeof(m)) || g32v != pack32(m)) {
+      string key = string("read_pixel:") + (memcmp(got, m, 3 * sizeof(uint64_t)) ? "wrong-value:" : dm.alpha ? "wrong-alpha:" : "wrong-implied-alpha:") + wtag(dm);
+      if (!saturated(key))
+        C->violation(key, "read_pixel differs from the model (alpha of a canvas without alpha channel must be the channel maximum of its current width)",
+            fmt("(%" PRId64 ",%" PRId64 ") on %s %s got=%s packed=%08x expected=%s content_seed=%" PRIu64 " seed=%" PRIu64 " shard=%u/%u", x, y, role, canvas_str(dm).c_str(),
+                px_str(got, 4).c_str(), g32v, px_str(m, 4).c_str(), cseed, C->seed, C->shard, C->nshards));
+      return;
+    }
+  }
+  C->cls(string("read_probe:") + fmt("%d%s", dm.cw, dm.alpha ? "a" : "n"));
+}
+
+// dedicated stage: every format x every target width, then every max-dependent follow-up
+static void format_suite(vf::Rng& r) {
+  static const int64_t sizes[] = {0, 1, 2, 3, 5};
+  uint64_t idx = 0;
+  for (int64_t w : sizes) for (int64_t h : sizes) for (int wi = 0; wi < 4; wi++) for (int a = 0; a < 2; a++) for (int wj = 0; wj < 4; wj++) {
+    if (!C->mine(idx++)) continue;
+    uint64_t cseed = (uint64_t)((w * 10 + h) * 64 + wi * 16 + a * 8 + wj);
+    for (int variant = 0; variant < 6; variant++) {
+      vf::Rng cr(cseed);
+      Canvas dm;
+      dm.init(w, h, a, WIDTHS[wi]);
+      uint64_t pal[4][3];
+      standard_palette(cr, pal);
+      fill_content(dm, cr, pal);
+      Image img = make_image(dm);
+      check_format_op(0, WIDTHS[wj], dm, img, cseed, "dst");
+      if (variant & 1) check_format_op(2 + (variant >> 1) % 2, 0, dm, img, cseed, "dst");  // the copy must carry the new maximum too
+      Canvas dummy;
+      dummy.init(0, 0, false, 8);
+      Image dimg = make_image(dummy);
+      Env e{&dm, &img, &dummy, &dimg};
+      e.content_seed = cseed;
+      Op o;
+      switch (variant) {
+        case 0: case 1:
+          o.kind = K_INVERT;
+          check_op(o, e, r, 0);
+          break;
+        case 2: case 3:
+          check_format_op(1, !dm.alpha, dm, img, cseed, "dst");
+          probe_reads(dm, img, r, 3, cseed, "dst");
+          check_format_op(1, !dm.alpha, dm, img, cseed, "dst");
+          break;
+        default: {
+          // opaque / transparent / translucent source of the same (converted) width blended onto it, and the
+          // converted canvas used as a no-alpha source whose implied alpha decides the blit rule
+          Canvas sm;
+          sm.init(w, h, true, dm.cw);
+          fill_content(sm, cr, pal);
+          for (int64_t i = 0; i < w * h; i++) if (i % 3 != 2) sm.v[(size_t)(i * 4 + 3)] = (i % 3) ? sm.maxv : 0;
+          Image simg = make_image(sm);
+          Env e2{&dm, &img, &sm, &simg};
+          e2.content_seed = cseed;
+          o.kind = variant == 4 ? K_BLEND : K_BLEND_A;
+          o.w = o.h = -1;
+          o.salpha = dm.maxv;
+          check_op(o, e2, r, 0);
+          probe_reads(dm, img, r, 3, cseed, "dst");
+          Canvas tm;
+          tm.init(w, h, true, dm.cw);
+          Image timg = make_image(tm);
+          Env e3{&tm, &timg, &dm, &img};
+          e3.content_seed = cseed;
+          Op o2;
+          o2.kind = (variant == 4) ? K_BLEND : K_BLIT;
+          o2.w = o2.h = -1;
+          check_op(o2, e3, r, 0);
+          break;
+        }
+      }
+      o.kind = K_REV_H;
+      Env e4{&dm, &img, &dummy, &dimg};
+      check_op(o, e4, r, 0);
+    }
+  }
+}
+
 // ------------------------------------------------------------------------------------------------
 // suite: random operation sequences on larger canvases, large coordinates, all formats
 
@@ -1190,6 +1346,28 @@ static void sequence_suite(vf::Rng& r) {
     Image simgs[2] = {make_image(sms[0]), make_image(sms[1])};
     int len = (int)cr.range(1, 30);
     for (int step = 0; step < len; step++) {
+      // format changes, copies and read probes keep the model in step (max value follows the width)
+      unsigned fk = (unsigned)r.below(100);
+      if (fk < 16) {
+        if (fk < 5) {
+          int nw = WIDTHS[r.below(4)];
+          check_format_op(0, nw, dm, img, cseed, "dst");
+          if (r.chance(2, 3)) for (int j = 0; j < 2; j++) check_format_op(0, nw, sms[j], simgs[j], cseed, "src");
+        } else if (fk < 8) {
+          check_format_op(1, (int)r.below(2), dm, img, cseed, "dst");
+        } else if (fk < 10) {
+          int j = (int)r.below(2);
+          if (r.chance(1, 2)) check_format_op(0, WIDTHS[r.below(4)], sms[j], simgs[j], cseed, "src");
+          else check_format_op(1, (int)r.below(2), sms[j], simgs[j], cseed, "src");
+        } else if (fk < 13) {
+          check_format_op(2 + (int)r.below(2), 0, dm, img, cseed, "dst");
+        } else {
+          probe_reads(dm, img, r, 2, cseed, "dst");
+          int j = (int)r.below(2);
+          probe_reads(sms[j], simgs[j], r, 1, cseed, "src");
+        }
+        continue;
+      }
       int kind;
       unsigned k = (unsigned)r.below(100);
       if (k < 56) kind = (int)(k % 8);
@@ -1200,7 +1378,7 @@ static void sequence_suite(vf::Rng& r) {
       else if (k < 90) kind = K_LINE;
       else if (k < 92) kind = K_REV_H;
       else if (k < 94) kind = K_REV_V;
-      else if (k < 96) kind = K_INVERT;
+      else if (k < 98) kind = K_INVERT;
       else kind = K_RESIZE;
       int which = (int)r.below(5);  // 0,1: sms[0]; 2,3: sms[1]; 4: self
       bool self = which == 4 && kind != K_RESIZE;
@@ -1249,6 +1427,7 @@ int main(int argc, char** argv) {
   if (want("line")) line_suite(r);
   if (want("text")) text_suite(r);
   if (want("ident")) identity_suite(r);
+  if (want("format")) format_suite(r);
   if (want("seq")) sequence_suite(r);
   flush_counters();
   c.sample("fill_rect: complete cross product x,y in [-3,size+3], w,h in [-1,size+3] on canvases {0,1,2,3,5,8}^2, both alpha modes, 4 colours");
